@@ -58,6 +58,9 @@ Step ==
               ELSE IF ~AtPlace(e)
                    THEN /\ Report(l, {"ControlFlow"}, [ev |-> e, cur |-> M.cur, status |-> M.status])
                         /\ live' = FALSE /\ M' = M
+              ELSE IF e.event = "step" /\ e.lb.k = "deploy"           \* not modelled at the Impl level (judged by ExecTrace only)
+                   THEN /\ Report(l, {"Unsupported"}, [lb |-> e.lb])
+                        /\ live' = FALSE /\ M' = M
               ELSE IF e.event = "step" /\ I!CallLikeLabel(e.lb) /\ M.pend
                    THEN /\ Report(l, {"Corner"}, [lb |-> e.lb])
                         /\ live' = FALSE /\ M' = M
